@@ -195,19 +195,92 @@ def decompress(path):
     return raw
 
 
+HDRVARS = ['default', 'none', 'same', 'trailing1', 'fewer', 'different', 'otherclass']
+DTKWS = ['set', 'type', 'str', 'native', 'swapped']
+OTHER_CLASS = {'analyze': 'nifti1', 'spm99': 'analyze', 'spm2': 'nifti1pair', 'nifti1': 'nifti2', 'nifti1pair': 'spm99',
+               'nifti2': 'nifti1', 'nifti2pair': 'analyze', 'mgh': 'nifti1'}
+
+
+def resolve_hdrvar(clsname, hv, m, shape):
+    """the explicit-header variant actually applicable to this class / dtype / shape"""
+    cs = classes()
+    rank = len(shape)
+    if hv == 'none' and not any(nat(x) == nat(m) for x in cs[clsname]['dtypes']):
+        hv = 'default'                 # header=None takes the dtype from the data: must be a supported one
+    if hv == 'trailing1' and rank >= (3 if clsname == 'mgh' else 7):
+        hv = 'fewer'
+    if hv == 'fewer' and rank == 1:
+        hv = 'different'
+    if clsname == 'mgh' and hv in ('same', 'fewer', 'different') and rank > 4:
+        hv = 'default'
+    return hv
+
+
+def build_header(clsname, hv, shape, be):
+    """header given to the image constructor (None for header=None)"""
+    cs = classes()
+    if hv == 'none':
+        return None
+    src = OTHER_CLASS[clsname] if hv == 'otherclass' else clsname
+    hc = cs[src]['cls'].header_class
+    hdr = hc() if src == 'mgh' else hc(endianness='>' if be else '<')
+    if hv == 'default':
+        return hdr
+    if hv in ('same', 'otherclass'):
+        hs = tuple(shape)
+    elif hv == 'trailing1':
+        hs = tuple(shape) + (1,) * (1 + (len(shape) + shape[0]) % 2 if len(shape) + 2 <= (4 if clsname == 'mgh' else 7) else 1)
+    elif hv == 'fewer':
+        hs = tuple(shape[:-1])
+    else:
+        hs = tuple(x + 1 for x in shape)
+    if src == 'mgh':
+        hs = hs[:4]
+    hdr.set_data_shape(hs)
+    hdr.set_zooms(tuple(1.0 + 0.5 * i for i in range(len(hdr.get_zooms()))))
+    return hdr
+
+
+def expected_be(case):
+    """byte order the file must have: the header's; a header of another class is converted to a native one
+    (C10: from_header) and header=None gives a native one"""
+    import sys
+    if case['cls'] == 'mgh':
+        return 1
+    if case['hdrvar'] in ('none', 'otherclass'):
+        return 1 if sys.byteorder == 'big' else 0
+    return case['be']
+
+
+def dtype_kw(case):
+    """the value of the dtype= keyword of the save call (None: the dtype was set with set_data_dtype)"""
+    d = case['disk']
+    k = case['dtkw']
+    if k == 'set':
+        return None
+    if d.fields is not None:
+        return d
+    if k == 'type':
+        return d.type
+    if k == 'str':
+        return d.name
+    if k == 'native':
+        return nat(d)
+    return nat(d).newbyteorder('S')          # byte-swapped dtype object, e.g. taken from a header of the other order
+
+
 def make_image(case, arr):
     ent = classes()[case['cls']]
     cls = ent['cls']
     d = case['disk']
-    if case['cls'] == 'mgh':
-        hdr = cls.header_class()
+    hdr = build_header(case['cls'], case['hdrvar'], case['shape'], case['be'])
+    if case['cls'] == 'mgh' and hdr is not None and case['hdrvar'] != 'otherclass':
         hdr.set_data_dtype(d)
-        img = cls(arr, np.eye(4), header=hdr)
-        img.set_data_dtype(d)
-        return img
-    hdr = cls.header_class(endianness='>' if case['be'] else '<')
     img = cls(arr, np.eye(4), header=hdr)
-    img.set_data_dtype(d)
+    if case['dtkw'] == 'set':
+        img.set_data_dtype(d)
+    if case['cls'] == 'mgh':
+        return img
     if case.get('offset'):
         img.header.set_data_offset(case['offset'])
     if case.get('autoscale') and cls.header_class.has_data_slope:
@@ -227,6 +300,7 @@ def run_case(chk, case, arr):
     ent = classes()[case['cls']]
     cls = ent['cls']
     out = {}
+    kw = {} if dtype_kw(case) is None else {'dtype': dtype_kw(case)}
     with warnings.catch_warnings():
         warnings.simplefilter('ignore')
         img = make_image(case, arr)
@@ -246,43 +320,44 @@ def run_case(chk, case, arr):
                 if pr.slope == 1.0 and pr.inter == 0.0:
                     raise RuntimeError('history save was expected to rescale')
         route = case['route']
+        base = os.path.join(chk.workdir, f"c{case['id']}")
         if route == 'filename':
-            case['_n'] = case.get('_n', 0)
-            base = os.path.join(chk.workdir, f"c{case['id']}")
             if case['cls'] == 'mgh':
                 fname = base + ('.mgz' if case['comp'] else '.mgh')
             else:
                 fname = base + ent['ext'] + case['comp']
-            img.to_filename(fname)
+            img.to_filename(fname, **kw)
             out['img_bytes'] = decompress(fname)
-            if not ent['single']:
-                out['hdr_bytes'] = decompress(base + '.hdr' + case['comp'])
             img2 = cls.from_filename(fname)
-            arr2 = np.array(np.asanyarray(img2.dataobj))
-            fd = img2.get_fdata() if arr2.dtype.fields is None and arr2.dtype.kind != 'c' else None
         elif route == 'file_map':
-            fm = {k: FileHolder(fileobj=io.BytesIO()) for k in cls.files_types and [t for t, _ in cls.files_types]}
-            img.to_file_map(fm)
+            fm = {t: FileHolder(fileobj=io.BytesIO()) for t, _ in cls.files_types}
+            img.to_file_map(fm, **kw)
             out['img_bytes'] = fm['image'].fileobj.getvalue()
-            if not ent['single']:
-                out['hdr_bytes'] = fm['header'].fileobj.getvalue()
             fm2 = {k: FileHolder(fileobj=io.BytesIO(v.fileobj.getvalue())) for k, v in fm.items()}
             img2 = cls.from_file_map(fm2)
-            arr2 = np.array(np.asanyarray(img2.dataobj))
-            fd = img2.get_fdata() if arr2.dtype.fields is None and arr2.dtype.kind != 'c' else None
+        elif route in ('both_stale', 'both_missing'):
+            # holders carrying BOTH a file name and an open file object: the file object wins
+            names = {t: base + ext for t, ext in cls.files_types}
+            if route == 'both_stale':      # the named files hold an image of the same size with different data
+                decoy_arr = np.roll(np.ascontiguousarray(arr).reshape(-1), 1).reshape(arr.shape)
+                decoy = make_image(case, decoy_arr)
+                decoy.to_filename(names['image'], **kw)
+            fm = {t: FileHolder(filename=names[t], fileobj=io.BytesIO()) for t, _ in cls.files_types}
+            img.to_file_map(fm, **kw)
+            out['img_bytes'] = fm['image'].fileobj.getvalue()
+            fm2 = {k: FileHolder(filename=names[k], fileobj=io.BytesIO(v.fileobj.getvalue())) for k, v in fm.items()}
+            img2 = cls.from_file_map(fm2)
         elif route == 'bytes':
-            b = img.to_bytes()
+            b = img.to_bytes(**kw)
             out['img_bytes'] = b
             img2 = cls.from_bytes(b)
-            arr2 = np.array(np.asanyarray(img2.dataobj))
-            fd = img2.get_fdata() if arr2.dtype.fields is None and arr2.dtype.kind != 'c' else None
         else:
             s = io.BytesIO()
-            img.to_stream(s)
+            img.to_stream(s, **kw)
             out['img_bytes'] = s.getvalue()
             img2 = cls.from_stream(io.BytesIO(s.getvalue()))
-            arr2 = np.array(np.asanyarray(img2.dataobj))
-            fd = img2.get_fdata() if arr2.dtype.fields is None and arr2.dtype.kind != 'c' else None
+        arr2 = np.array(np.asanyarray(img2.dataobj))
+        fd = img2.get_fdata() if arr2.dtype.fields is None and arr2.dtype.kind != 'c' else None
         out['arr2'] = arr2
         out['fdata'] = fd
         out['shape2'] = tuple(int(x) for x in img2.shape)
@@ -297,13 +372,23 @@ def gen_cases(chk):
     cs = classes()
     cases = []
 
-    def add(clsname, m, d, shape, be, comp, route, mem, special=True, offset=0, tag='random', r=rng, hist=()):
+    def add(clsname, m, d, shape, be, comp, route, mem, special=True, offset=0, tag='random', r=rng, hist=(),
+            hdrvar='default', dtkw='set'):
         ent = cs[clsname]
         hist = tuple(hist) if hist_ok(clsname, m, d) else ()
+        hdrvar = resolve_hdrvar(clsname, hdrvar, m, shape)
+        if clsname == 'mgh':
+            dtkw = 'set'               # MGHImage.to_file_map has no dtype= keyword
+            if hdrvar in ('none', 'otherclass') and not any(nat(x) == nat(m) for x in ent['dtypes']):
+                hdrvar = 'default'
+        if hdrvar == 'otherclass' and offset:
+            offset = 0
         if clsname == 'mgh':
             be = 1
         if route in ('bytes', 'stream') and not ent['ser']:
             route = 'file_map'
+        if route.startswith('both') and clsname == 'mgh' and comp:
+            comp = ''
         if route != 'filename':
             comp = ''
         if clsname == 'mgh' and comp:
@@ -320,7 +405,7 @@ def gen_cases(chk):
             if mem == 'broadcast':
                 vals[(0,) * (vals.ndim - 1)] = vals[(0,) * vals.ndim]
         cases.append(dict(id=len(cases), cls=clsname, mem=m, disk=d, shape=tuple(shape), be=be, comp=comp, route=route,
-                          layout=mem, offset=offset, tag=tag, vals=vals, hist=hist,
+                          layout=mem, offset=offset, tag=tag, vals=vals, hist=hist, hdrvar=hdrvar, dtkw=dtkw,
                           autoscale=bool(hist) or (len(cases) % 2 == 0)))
 
     # ---- seed-independent core: every class x every on-disk dtype x both byte orders with the
@@ -359,6 +444,28 @@ def gen_cases(chk):
                 add(clsname, m, d, gen_shape(fixed, 1 + k % 4), k % 2, COMPRESSIONS[k % 4], ROUTES[k % 4], MEM_KINDS[k % 6],
                     tag='core-history', r=fixed, hist=h)
                 k += 1
+    # explicit-header variants x dtype= keyword forms, every class, both byte orders
+    for clsname in cs:
+        for hv in HDRVARS:
+            for dk in DTKWS:
+                d = nat(cs[clsname]['dtypes'][k % len(cs[clsname]['dtypes'])])
+                if d.fields is None and d.itemsize == 1:
+                    d = nat(cs[clsname]['dtypes'][1])
+                rank = (3 + k % 2) if clsname == 'mgh' else 1 + k % 5
+                sh = gen_shape(fixed, rank)
+                if clsname == 'mgh' and len(sh) == 4 and sh[3] == 1:
+                    sh = sh[:3] + (2,)
+                add(clsname, d, d, sh, k % 2, COMPRESSIONS[k % 4], ROUTES[k % 4], MEM_KINDS[k % 6],
+                    tag='core-header-dtypekw', r=fixed, hdrvar=hv, dtkw=dk)
+                k += 1
+    # file maps whose holders carry both a file name (stale file / missing file) and a file object
+    for clsname in cs:
+        for rt in ('both_stale', 'both_missing'):
+            for be in (0, 1):
+                d = nat(cs[clsname]['dtypes'][k % len(cs[clsname]['dtypes'])])
+                sh = gen_shape(fixed, 3 if clsname == 'mgh' else 1 + k % 4)
+                add(clsname, d, d, sh, be, '', rt, MEM_KINDS[k % 6], tag='core-both', r=fixed, dtkw=DTKWS[k % 5])
+                k += 1
     # user offsets
     for clsname, off in (('analyze', 16), ('spm99', 100), ('nifti1pair', 32), ('nifti1', 352 + 64), ('nifti2', 544 + 16), ('nifti2pair', 7)):
         d = cs[clsname]['dtypes'][1]
@@ -380,9 +487,10 @@ def gen_cases(chk):
         if rng.random() < 0.15 and clsname != 'mgh':
             off = (ent['hsize'] + 4 + 16 * rng.randrange(0, 5)) if ent['single'] else rng.choice([1, 16, 100])
         add(clsname, m, d, gen_shape(rng, rank), rng.randrange(2), rng.choice(COMPRESSIONS),
-            rng.choice(['filename', 'filename', 'filename', 'file_map', 'bytes', 'stream']),
+            rng.choice(['filename', 'filename', 'filename', 'file_map', 'bytes', 'stream', 'both_stale', 'both_missing']),
             rng.choice(MEM_KINDS), special=rng.random() < 0.7, offset=off,
-            hist=rng.choice(HISTORIES) if rng.random() < 0.3 else ())
+            hist=rng.choice(HISTORIES) if rng.random() < 0.3 else (),
+            hdrvar=rng.choice(HDRVARS) if rng.random() < 0.6 else 'default', dtkw=rng.choice(DTKWS) if rng.random() < 0.5 else 'set')
     return cases
 
 
@@ -412,7 +520,7 @@ def hist_dtype(clsname, hname):
 def describe(c):
     return {'cls': c['cls'], 'mem': str(c['mem']), 'disk': str(c['disk']), 'shape': list(c['shape']), 'be': c['be'],
             'comp': c['comp'], 'route': c['route'], 'layout': c['layout'], 'offset': c['offset'], 'hist': list(c.get('hist', ())),
-            'autoscale': bool(c.get('autoscale')),
+            'autoscale': bool(c.get('autoscale')), 'hdrvar': c.get('hdrvar', 'default'), 'dtkw': c.get('dtkw', 'set'),
             'vals_hex': np.ascontiguousarray(c['vals']).tobytes().hex()}
 
 
@@ -466,12 +574,12 @@ def run(chk: Check):
         rec = {'c': c, 'w': w, 'nc': nc, 'expected': expected}
         nontrivial = expected.size > 1
         key = (c['cls'], str(c['mem']), str(c['disk']), c['shape'], c['be'], c['comp'], c['route'], c['layout'], c['offset'],
-               c['hist'], expected.tobytes())
+               c['hist'], c['hdrvar'], c['dtkw'], expected.tobytes())
         chk.count(key=key if nontrivial else None, tag=f"cls:{c['cls']}",
                   sample=describe(c) if c['id'] in (5, 300, 900) else None)
         for t in (f"rank:{len(c['shape'])}", f"route:{c['route']}", f"comp:{c['comp'] or 'none'}", f"layout:{c['layout']}",
                   f"endian:{'>' if c['be'] else '<'}", f"disk:{c['disk'].str if c['disk'].fields is None else ('RGB' if c['disk'].itemsize == 3 else 'RGBA')}",
-                  f"gen:{c['tag']}", 'history:' + ('+'.join(c['hist']) or 'fresh'), 'slope-state:' + ('nan(auto)' if c['autoscale'] else 'header'), 'scalingfree:' + ('same-dtype' if c['mem'] == c['disk'] else 'cast')):
+                  f"gen:{c['tag']}", 'history:' + ('+'.join(c['hist']) or 'fresh'), 'header:' + c['hdrvar'], 'dtype-via:' + c['dtkw'], 'slope-state:' + ('nan(auto)' if c['autoscale'] else 'header'), 'scalingfree:' + ('same-dtype' if c['mem'] == c['disk'] else 'cast')):
             chk.tagc(t)
         mexp = mgh_expected_shape(c['shape']) if c['cls'] == 'mgh' else tuple(c['shape'])
         rec['mexp'] = mexp
@@ -481,13 +589,13 @@ def run(chk: Check):
         try:
             o = run_case(chk, c, arr)
             rec['o'] = o
-        except (ValueError, HeaderDataError) as e:
+        except (ValueError, HeaderDataError, OSError) as e:
             rec['o'] = None
             rec['err'] = f'{type(e).__name__}: {e}'
-            chk.refusal('mgh_shape_refused' if c['cls'] == 'mgh' else 'other:' + type(e).__name__)
+            chk.refusal('mgh_shape_refused' if c['cls'] == 'mgh' and rec['mexp'] == 'refuse' else 'other:' + type(e).__name__)
             recs.append(rec)
             continue
-        be = c['be']
+        be = expected_be(c)
         shp = zl(c['shape'])
         wd = zl(words)
         img_b = o['img_bytes']
@@ -537,7 +645,7 @@ def run(chk: Check):
             exp_shape = rec['mexp'] if c['cls'] == 'mgh' else tuple(c['shape'])
             if nat(a2.dtype) != nat(c['disk']) or nat(o['dtype2']) != nat(c['disk']):
                 pred = f"on-disk dtype {o['dtype2']} / loaded dtype {a2.dtype}, expected {c['disk']}"
-            elif o['be2'] != c['be']:
+            elif o['be2'] != expected_be(c):
                 pred = 'byte order of the written file differs from the header it was given'
             elif tuple(a2.shape) != tuple(c['shape']) or o['shape2'] != tuple(c['shape']):
                 pred = f"shape {tuple(c['shape'])} reloaded as {tuple(a2.shape)}"
@@ -546,7 +654,7 @@ def run(chk: Check):
                     known = 'S-C01a'
             elif a2.astype(nat(a2.dtype)).tobytes() != expected.tobytes():
                 pred = 'reloaded array is not bit-for-bit the array cast to the on-disk type'
-            elif region != expected.astype(expected.dtype.newbyteorder('>' if c['be'] else '<') if expected.dtype.fields is None else expected.dtype).tobytes(order='F'):
+            elif region != expected.astype(expected.dtype.newbyteorder('>' if expected_be(c) else '<') if expected.dtype.fields is None else expected.dtype).tobytes(order='F'):
                 pred = 'raw bytes at the data offset are not the element encodings in F order'
             elif o['fdata'] is not None and not np.array_equal(o['fdata'], expected.astype(np.float64), equal_nan=True) \
                     and expected.dtype.kind in 'biuf' and (expected.dtype.kind == 'f' or expected.dtype.itemsize < 8):
@@ -784,13 +892,13 @@ def replay(chk, obj):
     vals = np.frombuffer(bytes.fromhex(c['vals_hex']), dtype=m).reshape(c['shape'])
     case = dict(id=0, cls=c['cls'], mem=m, disk=d, shape=tuple(c['shape']), be=c['be'], comp=c['comp'], route=c['route'],
                 layout=c['layout'], offset=c['offset'], tag='replay', vals=vals, hist=tuple(c.get('hist', ())),
-                autoscale=bool(c.get('autoscale')))
+                autoscale=bool(c.get('autoscale')), hdrvar=c.get('hdrvar', 'default'), dtkw=c.get('dtkw', 'set'))
     arr = memory_variant(None, vals, c['layout'])
     expected = vals.astype(d)
     os.makedirs(chk.workdir, exist_ok=True)
     try:
         o = run_case(chk, case, arr)
-    except (ValueError, HeaderDataError) as e:
+    except (ValueError, HeaderDataError, OSError) as e:
         print('raised', type(e).__name__, e)
         print('property holds on this case (refusal)' if c['cls'] == 'mgh' else 'property fails on this case')
         return 0 if c['cls'] == 'mgh' else 1
